@@ -241,6 +241,27 @@ class Gen:
         if r.chance(1, 4):
             self.do("@AddFV %d" % r.pick(lv))       # loop
 
+    def doublet(self):
+        """two cells sharing TWO faces (legal in polyhedral meshes), with a third cell on the face in between in
+        the first cell's halfface list - neighbour lists then contain non-adjacent duplicates before de-duplication"""
+        r = self.r
+        base = self.st().nv
+        self.add_vertices(6)
+        a, b, c, d, e, f = (base + i for i in range(6))
+        # A = tet (a,b,c,d) with its halffaces in the order abc, adb, acd, bdc (the shared ones abc/acd separated by adb)
+        hA = [self.face_on(t) for t in ((a, b, c), (a, d, b), (a, c, d), (b, d, c))]
+        if any(h is None for h in hA): return
+        order = hA if r.chance(2, 3) else r.shuffle(hA)
+        self.do("@AddC %d %s" % (r.below(2), " ".join(map(str, order))))
+        # B: the two shared triangles from the other side + the cone over the quad a-b-c-d from e
+        hB = [hA[0] ^ 1, hA[2] ^ 1] + [self.face_on(t) for t in ((a, b, e), (b, c, e), (c, d, e), (d, a, e))]
+        if any(h is None for h in hB): return
+        self.do("@AddC %d %s" % (r.below(2), " ".join(map(str, r.shuffle(hB) if r.chance(1, 2) else hB))))
+        # C: a tet on the face adb, from the other side
+        hC = [hA[1] ^ 1] + [self.face_on(t) for t in ((a, d, f), (d, b, f), (b, a, f))]
+        if any(h is None for h in hC): return
+        self.do("@AddC %d %s" % (r.below(2), " ".join(map(str, hC))))
+
     def touching_cells(self):
         """two tets sharing only a vertex, two sharing only an edge"""
         base = self.st().nv
@@ -430,8 +451,9 @@ class Gen:
         r = self.r
         n = 1 + r.below(3)
         for _ in range(n):
-            c = r.below(8)
-            if c == 0: self.fan(2 + r.below(4), closed=True)
+            c = r.below(9)
+            if c == 8: self.doublet()
+            elif c == 0: self.fan(2 + r.below(4), closed=True)
             elif c == 1: self.fan(1 + r.below(4), closed=False)
             elif c == 2: self.strip(1 + r.below(4))
             elif c == 3: self.hex_block(1 + r.below(2), 1 + r.below(2))
@@ -509,6 +531,30 @@ class Gen:
                 elif c < 16: self.build()
                 elif c < 17: self.status_gc() if self.sgc else self.do("GC")
                 else: self.readd()
+        elif p == "axis":
+            # k cells around one interior edge (created in random order), then the axis edge or one of its vertices is deleted,
+            # in a random incidence subset / deletion mode: the closure spans several cells per face (C02, C12)
+            self.mode()
+            if r.chance(1, 2): self.create_props(2)
+            for _ in range(1 + r.below(2)):
+                base = self.st().nv
+                self.fan(3 + r.below(3), closed=r.chance(2, 3))
+                if r.chance(1, 3): self.strip(1 + r.below(2))
+                self.fill_props()
+                s = self.st()
+                axis = [e for e in s.live_e() if set(s.E[e]) == {base, base + 1}]
+                c = r.below(4)
+                if axis and c < 2: self.do("@DelE %d" % axis[0])
+                elif c == 2: self.do("@DelV %d" % (base + r.below(2)))
+                else: self.delete_some("VEF")
+                if r.chance(1, 2): self.do("GC")
+                if r.chance(1, 2): self.toggle()
+            for _ in range(nops // 3):
+                c = r.below(6)
+                if c < 3: self.delete_some()
+                elif c == 3: self.swap_some()
+                elif c == 4: self.do("GC")
+                else: self.toggle()
         elif p == "gc":
             # pending deletions, then collect_garbage / leaving deferred mode / StatusAttrib::garbage_collection (C04)
             self.mode(deferred=1)
